@@ -217,7 +217,7 @@ def main(pid, tier, replay_path=None):
                     vlib.log('   ops: ' + ' '.join('%s(%d,%d)' % (s['op'], s['b'], s['a1']) for s in b['steps'][:r['step'] + 1]))
             # ---- C03: references dropped concurrently (a Slice reader on another goroutine against its owner): the ledger never sees a double free
             crcov = {}
-            if pid == 'C03' and (not replay_path or rp.get('concurrent_release')):
+            if pid in ('C02', 'C03') and (not replay_path or rp.get('concurrent_release')):
                 import subprocess
                 outp = sc.path('crel.json')
                 env = dict(vlib.GOENV, VERIF_OUT=outp, VERIF_BUDGET_MS=str(6000 if tier == 'quick' else 90000))
@@ -226,8 +226,9 @@ def main(pid, tier, replay_path=None):
                 if not os.path.exists(outp):
                     raise vlib.Inconclusive('concurrent-release run failed: ' + p_.stdout[-600:])
                 cr = json.load(open(outp))
-                crcov = {'concurrent_release_rounds': cr['rounds'], 'concurrent_release_double_frees': cr['double_free']}
-                if cr['double_free'] or cr['other']:
+                crcov = {'concurrent_release_rounds': cr['rounds'], 'concurrent_release_double_frees': cr['double_free'], 'concurrent_release_early_frees': cr.get('early_free', 0)}
+                # a block returned twice is C03's, a block returned while an unreleased reader still reads from it is C02's
+                if (pid == 'C03' and (cr['double_free'] or cr['other'])) or (pid == 'C02' and cr.get('early_free', 0)):
                     violations.append(vlib.save_replay(pid, '%s_crel' % tier, {'property': pid, 'tier': tier, 'concurrent_release': True, 'result': cr}))
                     vlib.log('violation in the concurrent-release run after %d rounds: %s' % (cr['rounds'], cr['detail']))
             # ---- the node-level transcription LinkBuffer.tla: exhaustive to a bounded number of calls, its behaviours on the real code
